@@ -490,6 +490,7 @@ def r6_components(program, rep):
     rep.guard("C04-R2", C04.r2_default, program, rep)
     rep.guard("C04-R3", C04.r3_ranges, program, rep)
     rep.guard("C04-R3", C04.r3_upcheck_all_members, program, rep)
+    rep.guard("C04-R3", C04.r3_changed_flag, program, rep)
     rep.guard("C04-R5", C04.r5_contract, program, rep)
     # alias records of one minimisation never reach another (a stale record
     # lets a later table accept a merge that covers a live entry)
